@@ -57,6 +57,9 @@ def literal(value, t):
         return "{" + ", ".join(parts) + "}"
     if isinstance(value, bool):
         return "true" if value else "false"
+    if t.name not in SPECIFIED:
+        # custom scalar: a rebuilt schema only knows the literal's text
+        return str(value)
     if isinstance(value, (int, float)):
         return repr(value)
     return "s:" + str(value)
